@@ -139,12 +139,15 @@ def ob_history():
 CHANNELS = [(4, 2, 4, [0, 1]), (4, 2, 2, [0, 2]), (4, 2, 4, [1, 2]), (4, 1, 4, [1]), (4, 3, 2, [0, 1, 3]), (2, 1, 2, [0, 1]), (4, 2, 4, [0])]
 
 
-@obligation("equalizer/exact_when_cp_covers_channel", params=[{"fft": f, "cp": cp, "used": u, "delays": "-".join(map(str, d))} for f, cp, u, d in CHANNELS],
+@obligation("equalizer/exact_when_cp_covers_channel", params=[{"fft": f, "cp": cp, "used": u, "delays": "-".join(map(str, d))} for f, cp, u, d in CHANNELS] +
+            [{"fft": 4, "cp": 2, "used": 4, "delays": "0-1", "queried_before": q} for q in (2, 1)] +
+            [{"fft": 2, "cp": 1, "used": 2, "delays": "0-1", "queried_before": 4}],
             timeout=200,
             desc="symbolic static TDL channel with the given delays (memory <= cp, incl. a first tap not at 0): y = linear convolution of the "
                  "modulated signal; demodulate(y[:len]) then equalize_data with the reported TdlImpulseResponse == the data symbols (two OFDM "
-                 "symbols, inter-symbol interference absorbed by the prefix)")
-def ob_equalizer(fft, cp, used, delays):
+                 "symbols, inter-symbol interference absorbed by the prefix); history variants: the reported response was already asked for "
+                 "its frequency response at ANOTHER FFT size (queried_before) - the answer for a size is a function of the taps and that size")
+def ob_equalizer(fft, cp, used, delays, queried_before=None):
     d = [int(t) for t in delays.split("-")]
 
     def body(c, it):
@@ -170,8 +173,15 @@ def ob_equalizer(fft, cp, used, delays):
         for i in range(len(d)):
             taps_sym[i, :] = h[i]
         ir2 = it.call(fading.TdlImpulseResponse, [taps_sym, prof])
+        goals = []
+        if queried_before is not None:
+            fr0 = it.call(it.getattr(ir2, "get_freq_response"), [queried_before])
+            goals.append(Goal("earlier query: one row per bin of the size asked for", np.shape(fr0) == (queried_before, nsym * fft)))
         out = it.call(it.getattr(eq, "equalize_data"), [rx, ir2])
-        return [Goal("equalised symbols == data", _meq(out, x))]
+        if queried_before is not None:
+            fr1 = it.call(it.getattr(ir2, "get_freq_response"), [fft])
+            goals.append(Goal("later query for the OFDM size: one row per bin", np.shape(fr1) == (fft, nsym * fft)))
+        return goals + [Goal("equalised symbols == data", _meq(out, x))]
     return verify(body, check_side=False, timeout_ms=120000)
 
 
@@ -195,7 +205,7 @@ def ob_indexes():
         o = ofdm.OFDM(fft, 0, used)
         idx = [int(i) for i in o.get_used_subcarrier_indexes()]
         h = used // 2
-        if used < fft:
+        if (not (used >= fft)):
             want = list(range(fft - h, fft)) + list(range(1, h + 1))
         else:
             want = list(range(fft // 2, fft)) + list(range(0, fft // 2))
@@ -233,27 +243,27 @@ def ob_native():
         if tx.shape != (nsym * (fft + cp),):
             return {"emitted length": list(tx.shape), "expected": nsym * (fft + cp)}
         B = tx.reshape(nsym, fft + cp)
-        if cp and np.abs(B[:, :cp] - B[:, fft:]).max() > 0:
+        if cp and (not (np.abs(B[:, :cp] - B[:, fft:]).max() <= 0)):
             return {"prefix is not a copy of the tail": True}
         S = np.fft.fft(B[:, cp:], axis=1)
         idx = o.get_used_subcarrier_indexes()
         unused = np.setdiff1d(np.arange(fft), idx)
-        if used < fft and (0 not in unused):
+        if (not (used >= fft)) and (0 not in unused):
             return {"DC used": True}
-        if unused.size and np.abs(S[:, unused]).max() > 1e-9 * max(1, np.abs(S).max()):
+        if unused.size and (not (np.abs(S[:, unused]).max() <= 1e-9 * max(1, np.abs(S).max()))):
             return {"energy on unused carriers": float(np.abs(S[:, unused]).max()), "fft": fft, "used": used}
         fresh = ofdm.OFDM(fft, cp, used)
-        if np.abs(fresh.modulate(x) - tx).max() > 1e-12:
+        if (not (np.abs(fresh.modulate(x) - tx).max() <= 1e-12)):
             return {"differs from a fresh object with the same parameters": True}
         rx = o.demodulate(tx.copy())
         want = np.concatenate([x, np.zeros(nsym * used - n)])
-        if rx.shape != want.shape or np.abs(rx - want).max() > 1e-10 * max(1, np.abs(x).max()):
+        if rx.shape != want.shape or (not (np.abs(rx - want).max() <= 1e-10 * max(1, np.abs(x).max()))):
             return {"round trip": float(np.abs(rx - want).max()) if rx.shape == want.shape else "shape"}
         if cp >= 1:
             mem = int(rr.randint(0, min(cp, fft - 1) + 1))
             k = int(rr.randint(1, min(4, mem + 1) + 1))
             delays = np.sort(rr.choice(np.arange(0, mem + 1), size=min(k, mem + 1), replace=False))
-            if rr.rand() < 0.5 and mem >= 1 and delays[0] == 0 and len(delays) > 1:
+            if (not (rr.rand() >= 0.5)) and mem >= 1 and delays[0] == 0 and len(delays) > 1:
                 delays = delays[1:]
             prof = fading.TdlChannelProfile(rr.uniform(-10, 0, len(delays)), delays.astype(float) * 1e-6)
             ch = fading.TdlChannel(fg.JakesSampleGenerator(0.0, 1e-6, 4, None, np.random.RandomState(case["seed"])), prof, Ts=1e-6)
@@ -264,8 +274,13 @@ def ob_native():
             # impulse response restricted to the samples of the useful parts
             keep = np.concatenate([np.arange(s * (fft + cp) + cp, (s + 1) * (fft + cp)) for s in range(nsym)])
             ir2 = fading.TdlImpulseResponse(ir.tap_values_sparse[:, keep], ir.channel_profile)
+            if case["seed"] % 2:
+                # the reported response may already have been asked for another FFT size (e.g. to plot it)
+                other = ir2.get_freq_response(4 * fft)
+                if other.shape[0] != 4 * fft:
+                    return {"get_freq_response(4*fft) rows": int(other.shape[0])}
             out = eq.equalize_data(rx, ir2)
-            if np.abs(out - want).max() > 1e-8 * max(1, np.abs(x).max()):
+            if (not (np.abs(out - want).max() <= 1e-8 * max(1, np.abs(x).max()))):
                 return {"equaliser": float(np.abs(out - want).max()), "fft": fft, "cp": cp, "used": used, "delays": ir.tap_indexes_sparse.tolist()}
         return None
     return bounded(gen(), check)
@@ -291,5 +306,5 @@ def ob_corner():
         ir2 = fading.TdlImpulseResponse(ir.tap_values_sparse[:, keep], ir.channel_profile)
         out = ofdm.OfdmOneTapEqualizer(o).equalize_data(o.demodulate(y.copy()), ir2)
         e = np.abs(out - x).max()
-        return {"max error": float(e), "cause": "np.fft.fft(taps, 16) crops the 17th tap in get_freq_response"} if e > 1e-8 else None
+        return {"max error": float(e), "cause": "np.fft.fft(taps, 16) crops the 17th tap in get_freq_response"} if (not (e <= 1e-8)) else None
     return bounded([{"fft": 16, "cp": 16, "tap delay": 16}], check)
